@@ -68,8 +68,10 @@ type Tunnel struct {
 	sock   knxnet.Socket
 	config TunnelConfig
 
-	// Connection information
+	// Connection information; channel and control are replaced by a reconnect, connMu guards them
+	// against the goroutines that send requests meanwhile.
 	layer   knxnet.TunnelLayer
+	connMu  sync.RWMutex
 	channel uint8
 	control knxnet.HostInfo
 
@@ -107,6 +109,14 @@ func (conn *Tunnel) hostInfo() (knxnet.HostInfo, error) {
 	}
 }
 
+// connInfo returns the channel and the control endpoint of the current connection.
+func (conn *Tunnel) connInfo() (uint8, knxnet.HostInfo) {
+	conn.connMu.RLock()
+	defer conn.connMu.RUnlock()
+
+	return conn.channel, conn.control
+}
+
 // requestConn repeatedly sends a connection request through the socket until the configured
 // reponse timeout is reached or a response is received. A response that renders the gateway as busy
 // will not stop requestConn.
@@ -117,12 +127,14 @@ func (conn *Tunnel) requestConn() (err error) {
 		return err
 	}
 
+	conn.connMu.Lock()
 	conn.control = hostInfo
+	conn.connMu.Unlock()
 
 	req := &knxnet.ConnReq{
 		Layer:   conn.layer,
-		Control: conn.control,
-		Tunnel:  conn.control,
+		Control: hostInfo,
+		Tunnel:  hostInfo,
 	}
 
 	// Send the initial request.
@@ -163,7 +175,9 @@ func (conn *Tunnel) requestConn() (err error) {
 				switch res.Status {
 				// Conection has been established.
 				case knxnet.NoError:
+					conn.connMu.Lock()
 					conn.channel = res.Channel
+					conn.connMu.Unlock()
 
 					conn.seqMu.Lock()
 					conn.seqNumber = 0
@@ -189,7 +203,8 @@ func (conn *Tunnel) requestConn() (err error) {
 func (conn *Tunnel) requestConnState(
 	heartbeat <-chan knxnet.ErrCode,
 ) (knxnet.ErrCode, error) {
-	req := &knxnet.ConnStateReq{Channel: conn.channel, Status: 0, Control: conn.control}
+	channel, control := conn.connInfo()
+	req := &knxnet.ConnStateReq{Channel: channel, Status: 0, Control: control}
 
 	// Send first connection state request
 	err := conn.sock.Send(req)
@@ -230,10 +245,12 @@ func (conn *Tunnel) requestConnState(
 
 // requestDisc sends a disconnect request to the gateway.
 func (conn *Tunnel) requestDisc() error {
+	channel, control := conn.connInfo()
+
 	return conn.sock.Send(&knxnet.DiscReq{
-		Channel: conn.channel,
+		Channel: channel,
 		Status:  0,
-		Control: conn.control,
+		Control: control,
 	})
 }
 
@@ -261,8 +278,10 @@ func (conn *Tunnel) requestTunnel(data cemi.Message) error {
 		}
 	}
 
+	channel, _ := conn.connInfo()
+
 	req := &knxnet.TunnelReq{
-		Channel:   conn.channel,
+		Channel:   channel,
 		SeqNumber: seqNumber,
 		Payload:   data,
 	}
